@@ -4,7 +4,8 @@
 //
 //	{"id":n,"host":"html|svg|css","regs":[{"k":"Add|AddFunc|AddRegexp|AddFuncRegexp","lit":[bytes],"pat":p,
 //	  "beh":"stub|fail|fail2|plainfail|real","real":"css|js|html|svg|json|xml"}],
-//	 "parts":[{"lit":[bytes]} | {"kind":K,"hastype":b,"type":[bytes],"payload":[bytes],"mt":[bytes],"enc":"pct|b64","quote":"dq|sq"}]}
+//	 "parts":[{"lit":[bytes]} | {"kind":K,"hastype":b,"type":[bytes],"payload":[bytes],"mt":[bytes],"enc":"pct|b64","quote":"dq|sq",
+//	           "attrs":[bytes],"tmpl":b}]}   opts: html.Minifier options bit mask, 32 = TemplateDelims {{ }}
 //
 // The driver renders the host document (escaping each payload for its host syntax), builds a real
 // minify.M with recording stub minifiers / recording wrappers around the real minifiers, calls the
@@ -62,6 +63,8 @@ type Part struct {
 	MT      lib.Bytes `json:"mt"`
 	Enc     string    `json:"enc"`
 	Quote   string    `json:"quote"`
+	Attrs   lib.Bytes `json:"attrs"` // raw elements: further attributes, written after type= (e.g. " src=x.json")
+	Tmpl    bool      `json:"tmpl"`  // the payload holds a template delimiter and TemplateDelims is set (opts&32)
 }
 
 type Case struct {
@@ -92,6 +95,7 @@ type Slot struct {
 	Type    lib.Bytes `json:"type"`
 	Payload lib.Bytes `json:"payload"` // the embedded content (what the host syntax decodes to)
 	MT      lib.Bytes `json:"mt"`      // data URI: media type text
+	Tmpl    bool      `json:"tmpl"`    // text with a template delimiter under TemplateDelims: written as is, never minified
 	Raw     lib.Bytes `json:"raw"`     // data URI: the URI as written (after host-level unescaping)
 	Lo      int       `json:"lo"`      // byte range of the slot's construct in the rendered input (0-based, [lo,hi))
 	Hi      int       `json:"hi"`
@@ -364,7 +368,7 @@ func render(c Case) ([]byte, []Slot) {
 		k := len(slots) + 1
 		id := "s" + strconv.Itoa(k)
 		s := Slot{Kind: p.Kind, HasType: p.HasType, Type: append(lib.Bytes{}, p.Type...), Payload: append(lib.Bytes{}, p.Payload...),
-			MT: append(lib.Bytes{}, p.MT...), Raw: lib.Bytes{}}
+			MT: append(lib.Bytes{}, p.MT...), Tmpl: p.Tmpl, Raw: lib.Bytes{}}
 		typ := ""
 		if p.HasType {
 			typ = ` type="` + string(escAttr(p.Type, "dq")) + `"`
@@ -378,7 +382,7 @@ func render(c Case) ([]byte, []Slot) {
 				lib.Fatal("case %d: payload not representable in <%s>", c.ID, p.Kind)
 			}
 			pre, post = "<div id="+id+">", "</div>"
-			construct = fmt.Sprintf("<%s%s>%s</%s>", p.Kind, typ, p.Payload, p.Kind)
+			construct = fmt.Sprintf("<%s%s%s>%s</%s>", p.Kind, typ, p.Attrs, p.Payload, p.Kind)
 		case "svg", "math":
 			pre, construct, post = "<div id="+id+">", string(p.Payload), "</div>"
 		case "styleAttr":
@@ -830,6 +834,9 @@ func runCase(c Case) Event {
 		case "html":
 			o := &mhtml.Minifier{KeepQuotes: c.Opts&1 != 0, KeepDefaultAttrVals: c.Opts&2 != 0, KeepWhitespace: c.Opts&4 != 0,
 				KeepEndTags: c.Opts&8 != 0, KeepDocumentTags: c.Opts&16 != 0}
+			if c.Opts&32 != 0 {
+				o.TemplateDelims = [2]string{"{{", "}}"}
+			}
 			err = o.Minify(m, &out, rd, nil)
 		case "svg":
 			err = (&svg.Minifier{}).Minify(m, &out, rd, nil)
